@@ -41,7 +41,24 @@ ASSUMPTIONS = [
     'subqueries scan the same table as the outer query (so the check is independent of DESIGN 7 D2)',
     'statements outside the model language (FROM OPEN/CLOSE/CLEAR, ORDER BY/DISTINCT/LIMIT, PIVOT BY, HAVING, BALANCES, '
     'JOURNAL, FROM-subqueries, #entries/#accounts) are run under driven schedules and compared with their serial '
-    'results only (8 scenario pairs x 2 topologies); the model theorems do not speak about them',
+    'results only (10 fixed scenario pairs + 2 generated families x 2 topologies); the statement-model theorems do '
+    'not speak about them',
+    'generated families (impl-only, oracle = serial execution; the serial results on one shared connection must also '
+    'equal those on separate connections): same-text = 2-3 threads execute the IDENTICAL statement given as a str '
+    'without parameters (or as one parsed object) with yield points between the aggregate values of a finalised '
+    'group, in the scan phase, in plain/subquery/pivot statements; from-subquery-namespace = statements over '
+    'FROM-subqueries whose column names collide (other positions / other types) with yield points at compile time '
+    '(vyield of a constant is folded after the FROM clause is compiled and before later columns are bound); '
+    'quick runs 10 schedules per case and topology, not all interleavings',
+    'the keyed-cell model (kcomp: column namespace of a FROM-subquery, aggregator nodes of a compiled statement) is '
+    'tied to the code only through the inventory (shared = the inventory lists a cell the statement model does not '
+    'interpret); its shared=true branch describes designs that the unchanged tree does not have and is validated '
+    'only by the seeded-change experiments (the witness schedules of Properties/C20.v are the ones the driven runs '
+    'found there)',
+    'the inventory sees per-connection state only as attributes of the Connection object (fingerprint and size after '
+    'every workload statement) and class-level containers only when the workload changes them or an instance method '
+    'writes them through self (static AST scan); state hidden in closures, C extensions or objects reachable only '
+    'from cursors is not enumerated',
     'Connection.tables, ledger entries and options are only read by queries (checked by the dynamic diff of the '
     'module/class level state; per-connection objects are fingerprinted in the workload as well)',
     'memo tables internal to CPython/stdlib (functools.singledispatch dispatch cache, re pattern cache, decimal '
@@ -97,7 +114,12 @@ def _hook(x):
     tid = S.slots.get(threading.get_ident())
     if tid is None:
         return x
-    S.log.append((tid, _canon(x)))
+    try:
+        S.log.append((tid, _canon(x)))
+    except (HarnessError, AssertionError):
+        # a value of a type the function was not compiled for (e.g. a column bound to another statement's column):
+        # evidence for the comparison with the serial run / the model trace, not an error of the harness
+        S.log.append((tid, f'?{type(x).__name__}:{x}'))
     if tid in S.free:
         return x
     with S.cv:
@@ -917,10 +939,14 @@ IMPL_ONLY = [
 def _text_job(conn, text, raw=False):
     """raw: the statement is handed to Cursor.execute as a str (parsed inside execute, in the thread; this is the
     path on which anything keyed by the statement TEXT would act), else as a freshly copied parsed statement."""
+    return _job_of(conn, text if raw else _parsed_copy(text))
+
+
+def _job_of(conn, stmt):
     def job():
         try:
             cur = conn.cursor()
-            cur.execute(text if raw else _parsed_copy(text))
+            cur.execute(stmt)
             return ([f'{c.name}:{getattr(c.datatype, "__name__", c.datatype)}' for c in cur.description],
                     [[f'{type(v).__name__}:{v}' for v in row] for row in cur.fetchall()])
         except HarnessError:
@@ -933,12 +959,16 @@ def _text_job(conn, text, raw=False):
 def _impl_only_unit(args):
     texts, topo, schedules = args[:3]
     led = args[3] if len(args) > 3 else L_IO
-    raw = bool(args[4]) if len(args) > 4 else False
+    raw = args[4] if len(args) > 4 else False     # False: a fresh parsed copy per thread; True: the text;
+    #                                                 'shared': ONE parsed statement object per distinct text
 
     def jobs():
         # always freshly loaded ledgers: the serial reference must not share data with the scheduled runs
         shared = connection(led, fresh=True)
-        return [_text_job(shared if topo == 'shared-connection' else connection(led, fresh=True), t, raw) for t in texts]
+        if raw == 'shared':
+            objs = {t: _parsed_copy(t) for t in texts}
+            return [_job_of(shared if topo == 'shared-connection' else connection(led, fresh=True), objs[t]) for t in texts]
+        return [_text_job(shared if topo == 'shared-connection' else connection(led, fresh=True), t, bool(raw)) for t in texts]
     ser = [j() for j in jobs()]
     segs = []
     for i, j in enumerate(jobs()):
@@ -1017,7 +1047,10 @@ def gen_same_text(rng, i):
             'SELECT account, vyield(year) AS y, vyield(sum(number)) AS s GROUP BY 1, 2 PIVOT BY 1, 2',
         ])
         shape = 'plain/subquery/pivot'
-    return (f'same-text{i}', [text] * n, L_IO, True, {'family': 'same-text', 'shape': shape, 'threads': n})
+    # mostly as text; some as ONE parsed statement object executed by all threads
+    mode = 'shared' if i % 5 == 1 else True
+    return (f'same-text{i}', [text] * n, L_IO, mode,
+            {'family': 'same-text', 'shape': shape + ('/one-parsed-object' if mode == 'shared' else '/text'), 'threads': n})
 
 
 FS_INNER = [('account', 'str'), ('number', 'dec'), ('year', 'int'), ('day', 'int'), ('narration', 'str'),
@@ -1094,13 +1127,14 @@ def _differs(texts, topo, sched, led, raw):
 
 def check_impl_only(rng, cap, families=(), targeted=False):
     """Fixed scenario pairs + generated families, every topology, under driven schedules, against the serial results
-    (and the serial results of the two topologies against each other).  targeted: the inventory found a shared cell -
-    search harder (all interleavings of small cases, more random schedules) for a schedule that shows it."""
+    (and the serial results of the two topologies against each other).  targeted: second pass, made when the
+    inventory found a shared cell and the first pass no schedule-dependent result - search harder (all interleavings
+    of cases with <= 10 steps, 40 schedules for the others) for a schedule that shows it."""
     viol, runs, errs = [], 0, 0
     units, meta = [], []
     fam = {'scenarios': collections.Counter(), 'runs': collections.Counter(), 'shape_hist': collections.Counter(),
            'threads_hist': collections.Counter(), 'yield_points_per_thread': collections.Counter(),
-           'raw_text_runs': 0, 'statements_raising': 0, 'samples': []}
+           'raw_text_runs': 0, 'shared_parsed_object_runs': 0, 'statements_raising': 0, 'samples': []}
     scen = [(n, t, 'meta', False, None) for n, t in IMPL_ONLY_META] + [(n, t, L_IO, False, None) for n, t in IMPL_ONLY]
     scen += list(families)
     sigs = set()
@@ -1120,11 +1154,11 @@ def check_impl_only(rng, cap, families=(), targeted=False):
                     fam['yield_points_per_thread'][min(k - 1, 40) // 5 * 5] += 1
                 if topo == 'shared-connection' and len(fam['samples']) < 14 and (info['family'] != 'same-text' or len(fam['samples']) < 7):
                     fam['samples'].append(' || '.join(texts))
-            small = sum(segs) <= 14
-            if small and (cap >= 3432 or targeted):
+            # statements given as text are parsed in every run (~0.1 s each): a lower bound for the generated families
+            if sum(segs) <= (14 if info is None else 12) and cap >= 3432 or targeted and sum(segs) <= 10:
                 scheds = all_interleavings(segs)[0]
             else:
-                scheds = pick_schedules(rng, segs, min(cap, 150) if not targeted else 150)
+                scheds = pick_schedules(rng, segs, min(cap, 150) if not targeted else 40)
             for j in range(0, len(scheds), 8):
                 units.append((texts, topo, scheds[j:j + 8], led, raw))
                 meta.append((name, topo, texts, scheds[j:j + 8], led, raw, info))
@@ -1145,7 +1179,8 @@ def check_impl_only(rng, cap, families=(), targeted=False):
             runs += 1
             if info:
                 fam['runs'][info['family']] += 1
-                fam['raw_text_runs'] += 1 if raw else 0
+                fam['raw_text_runs'] += 1 if raw is True else 0
+                fam['shared_parsed_object_runs'] += 1 if raw == 'shared' else 0
             if r != ser and name not in seen_names and len(sigs) < 3:
                 seen_names.add(name)
                 small = ddmin(s, lambda s2: _differs(texts, topo, s2, led, raw), max_tests=40) if s else s
@@ -1155,7 +1190,7 @@ def check_impl_only(rng, cap, families=(), targeted=False):
                 sig = f'schedule-dependent:{name}:{topo}: ' + ' || '.join(texts) + f' schedule={small}'
                 sigs.add(sig)
                 viol.append(core.Violation('schedule-dependent-result',
-                                           f'{topo}: {" || ".join(texts)}{" [statements given as text]" if raw else ""} '
+                                           f'{topo}: {" || ".join(texts)}{" [statements given as text]" if raw is True else " [one parsed statement object per text]" if raw else ""} '
                                            f'schedule={small}: threads return {res2[0]} but serial '
                                            f'execution returns {ser2}',
                                            {'texts': texts, 'topology': topo, 'schedule': small, 'serial': ser2,
@@ -1287,9 +1322,13 @@ def run(tier, rng):
         stats3, v = check_cases(head, lambda c, segs: all_interleavings(segs)[0], 'c20c')
         violations += v
     # generated families outside the model language; a shared cell in the inventory triggers the targeted search
-    fams = family_scenarios(rng, 8 if quick else 40, 9 if quick else 45)
-    io_runs, io_errs, v, fam_cov = check_impl_only(rng, 10 if quick else 3432, fams, targeted=bool(inv['cells']))
+    fams = family_scenarios(rng, 8 if quick else 24, 9 if quick else 27)
+    io_runs, io_errs, v, fam_cov = check_impl_only(rng, 10 if quick else 3432, fams)
     violations += v
+    targeted_runs = 0
+    if inv['cells'] and not any(x.kind in ('schedule-dependent-result', 'topology-dependent-serial-result') for x in violations):
+        targeted_runs, _, v, _ = check_impl_only(rng, 40, fams + family_scenarios(rng, 8, 9), targeted=True)
+        violations += v
     # the inventory's cells, each with a concrete schedule (when the driven runs found one) as witness
     witness = next((x.detail for x in violations if x.kind in ('schedule-dependent-result', 'topology-dependent-serial-result')),
                    None)
@@ -1340,7 +1379,9 @@ def run(tier, rng):
         'evaluations': m['runs'],
         'distinct_nontrivial': m['interleaved_runs'],
         'rule': 'one evaluation = one (case, schedule) run on real threads driven by the vyield hook, compared with the '
-                'serial results and with the model (results + global yield trace); cases = 12 named scenarios x 2 '
+                'serial results and with the model (results + global yield trace); outside the model language fixed '
+                'scenario pairs and the generated families same-text / from-subquery-namespace (see generated_families) '
+                'are compared with the serial results; cases = 12 named scenarios x 2 '
                 'topologies + random pairs/triples; schedules = structured (A,B,A ...), random, and all interleavings '
                 '(quick: headline pair; thorough: every pair with <= 6 yield points per thread); non-trivial = the '
                 'observed trace switches thread at least twice',
@@ -1355,7 +1396,7 @@ def run(tier, rng):
         'impl_only_statements_raising': io_errs,
         'impl_only_scenarios': [n for n, _ in IMPL_ONLY_META + IMPL_ONLY],
         'generated_families': fam_cov,
-        'targeted_search': bool(inv['cells']),
+        'targeted_search_runs': targeted_runs,
     })
     for k in ('feature_hist', 'yields_per_thread', 'schedules_per_case', 'switches_hist', 'error_results', 'row_results'):
         cov[k] = m[k]
@@ -1397,7 +1438,7 @@ def replay(rec):
     if 'texts' in rec:
         led = rec.get('ledger', L_IO)
         led = led if led == 'meta' else [(y, d, list(a)) for y, d, a in led]
-        raw = bool(rec.get('raw'))
+        raw = rec.get('raw', False)
         if rec['topology'] == 'both':
             return _impl_only_unit((rec['texts'], 'shared-connection', None, led, raw))[0] == \
                 _impl_only_unit((rec['texts'], 'connection-per-thread', None, led, raw))[0]
